@@ -38,3 +38,12 @@ Theorem C11_init_segment_is_stable : forall (c : frag_config) (ops : list fop) (
   In (FrBytes b) (snd (frun (fmuxer_new c) ops)) -> b = init_segment_bytes c.
 Proof. exact init_segment_is_stable. Qed.
 Print Assumptions C11_init_segment_is_stable.
+
+From Muxide Require Export Spec.Checks Proofs.FragHistoryProofs.
+(* WHOLE HISTORIES: per-segment timing, base decode times across segments (never backwards, never
+   before the previous segment's last sample, stream constant 0) and the stable init segment *)
+Theorem C11_fragmented_history_timeline_is_consistent : forall (c : frag_config) (ops : list fop),
+  all_segments_fit ops ->
+  check_C11 ops (map fout_of (snd (frun (fmuxer_new c) ops))) = true.
+Proof. exact fragmented_history_timeline_is_consistent. Qed.
+Print Assumptions C11_fragmented_history_timeline_is_consistent.
